@@ -1,4 +1,9 @@
 import MesaModel.Model.Viz
+import MesaModel.Model.VizLayers
+import MesaModel.Model.VizAltair
+import MesaModel.Model.VizInputs
+import MesaModel.Model.VizKwargs
+import MesaModel.Model.VizSize
 /-!
 Line-protocol driver for the Viz model (C20).  One output line per input line.
 Producer: harness/viz_common.py.
@@ -13,14 +18,24 @@ Producer: harness/viz_common.py.
   place A X Y | move A X Y | remove A | ghost A
   collect | collectd COLOR SIZE MARKER ZORDER
   draw | altair | heap | drawc | altairc   (…c: through the solara component)
-  layer v…                           property layer values, x-major (W*H ints)
-  drawlayer cmap|color|cmapauto|colorauto
+  drawk K=V …                        draw_space(…, **{K: V}), K ∈ alpha edgecolors linewidths (plotting keyword arguments)
+  sdefault                           the size of the markers of agents whose portrayal names none (`none` without agents)
+  drawc0 | altairc0                  the components without a portrayal (their defaults: `{}`, `{"id": unique_id}`)
+  layer v…                           property layer `v`: values, x-major (W*H ints);  layern NAME v…: layer NAME
+  drawlayers SPEC…                   SPEC = NAME:MODE:ALPHA:VMIN:VMAX:CBAR, MODE ∈ color=C cmap=C none, ALPHA percent,
+                                     VMIN / VMAX ints, CBAR ∈ y n; `-` for a key the portrayal leaves out
+  drawsp SPEC…                       draw_space(space, portrayal, propertylayer_portrayal={SPEC…}): agents, then layers
+  drawlayer cmap|color|cmapauto|colorauto     short for  drawlayers v:cmap=viridis|color=red:-:0|-:9|-:n
 
  params scenarios
   sig NAME:KIND:d|n …                KIND ∈ po pk vp ko vk
   check KEY…
   split KEY:slider | KEY:val | KEY:dict[+k…] …
   creator (same tokens)
+  inputs NAME:SPEC …                 ModelCreator rendered on the full parameter dict; SPEC ∈ slider/i|f/VALUE/LABEL,
+                                     spec/TYPE/VALUE/LABEL (a dict with "type"; VALUE, LABEL: `-` if absent), fdict (a dict
+                                     without "type"), val/VALUE
+  change NAME VALUE                  the input of parameter NAME reports VALUE (after a successful `inputs`)
 -/
 open Mesa.Viz
 
@@ -60,8 +75,10 @@ structure St where
   params : Bool := false
   heap : Heap := []
   portray : List (Nat × Ref) := []
-  layer : Option Layer := none
+  layers : List (String × Layer) := []
   sig : Option (List Param) := none
+  mparams : Option (List (String × Option Val)) := none
+  widgets : List Widget := []
 
 def St.portrayal (st : St) : Portrayal := fun a => st.portray.lookup a
 
@@ -97,6 +114,10 @@ def groupLe (a b : Group) : Bool :=
 def fmtGroup (g : Group) : String :=
   g.drawn.foldl (fun acc e => acc ++ " " ++ fmtMarker e) s!"{g.marker} {g.zorder} n={g.drawn.length}"
 
+def fmtDrawKw (d : KwDrawing) : String :=
+  ((d.groups.mergeSort groupLe).foldl (fun acc g =>
+    acc ++ " | " ++ (g.drawn.map (applyKw d.kw)).foldl (fun a e => a ++ " " ++ fmtMarker e) s!"{g.marker} {g.zorder} n={g.drawn.length}") "ok")
+
 def fmtDraw (gs : List Group) : String :=
   (gs.mergeSort groupLe).foldl (fun acc g => acc ++ " | " ++ fmtGroup g) "ok"
 
@@ -107,9 +128,21 @@ def fmtErr : Err → String
 def fmtDict (d : Dict) : String :=
   ",".intercalate ((d.mergeSort fun a b => strLe a.1 b.1).map fun kv => s!"{kv.1}={kv.2}")
 
-def fmtAltair (rows : List Dict) : String :=
-  let enc := (if altairEncodes rows "color" then ["color"] else []) ++ (if altairEncodes rows "size" then ["size"] else [])
-  rows.foldl (fun acc r => acc ++ " | " ++ orDash (fmtDict r)) s!"ok enc={orDash ("+".intercalate enc)}"
+/-- a fraction in lowest terms: `0`, `1`, `n/d` -/
+def fmtFrac (f : Frac) : String :=
+  let g := Nat.gcd f.num.natAbs f.den
+  if g = 0 then "?" else
+  let n := f.num / (g : Int)
+  let d := f.den / g
+  if d = 1 then toString n else s!"{n}/{d}"
+
+def fmtAltair (c : AltairChart) : String :=
+  let enc := (if c.color then ["color"] else []) ++ (if c.size then ["size"] else [])
+  let mark := match c.markSize with
+    | none => "-"
+    | some f => fmtFrac f
+  c.rows.foldl (fun acc r => acc ++ " | " ++ orDash (fmtDict r))
+    s!"ok enc={orDash ("+".intercalate enc)} xy={c.xyType} tip={orDash ("+".intercalate c.tooltip)} mark={mark}"
 
 def fmtHeap (h : Heap) : String :=
   (h.zipIdx.foldl (fun acc (d, i) => acc ++ s!" {i}:" ++ "{" ++ fmtDict d ++ "}") "ok")
@@ -118,12 +151,76 @@ def fmtOptInt : Option Int → String
   | none => "?"
   | some v => toString v
 
-def fmtLayer (fam : Family) (L : Layer) : String :=
-  if fam.isOrthogonal then
-    (imshowRows L).zipIdx.foldl (fun acc (row, r) => acc ++ s!" r{r}=" ++ ",".intercalate (row.map fmtOptInt)) "ok img"
-  else if fam.isHex then
-    (hexColors L).zipIdx.foldl (fun acc (v, k) => acc ++ s!" {k % L.w},{k / L.w}={fmtOptInt v}") "ok hex"
-  else "err NotImplemented"
+def fmtOptFrac : Option Frac → String
+  | none => "?"
+  | some f => fmtFrac f
+
+def fmtCbar : Option (Int × Int) → String
+  | none => "-"
+  | some (lo, hi) => s!"{lo}..{hi}"
+
+def fmtRows {α} (f : α → String) (rows : List (List α)) : String :=
+  rows.zipIdx.foldl (fun acc (row, r) => acc ++ s!" r{r}=" ++ ",".intercalate (row.map f)) ""
+
+def fmtCells {α} (f : α → String) (w : Nat) (cells : List α) : String :=
+  cells.zipIdx.foldl (fun acc (v, k) => acc ++ s!" {k % w},{k / w}={f v}") ""
+
+def fmtDrawn (w : Nat) (d : DrawnLayer) : String :=
+  match d.pic with
+  | .imgRgba c rows => s!"{d.name} img color={c} cbar={fmtCbar d.cbar}" ++ fmtRows fmtOptFrac rows
+  | .imgCmap cm a lo hi rows =>
+    s!"{d.name} imgmap cmap={cm} alpha={a} vmin={lo} vmax={hi} cbar={fmtCbar d.cbar}" ++ fmtRows fmtOptInt rows
+  | .hexRgba c cells => s!"{d.name} hex color={c} cbar={fmtCbar d.cbar}" ++ fmtCells fmtOptFrac w cells
+  | .hexCmap cm a cells => s!"{d.name} hexmap cmap={cm} alpha={a} cbar={fmtCbar d.cbar}" ++ fmtCells fmtOptFrac w cells
+
+def fmtLayers (w : Nat) : Except LayerErr (List DrawnLayer) → String
+  | .error .attribute => "err Attribute"
+  | .error .value => "err Value"
+  | .ok ds => ds.foldl (fun acc d => acc ++ " | " ++ fmtDrawn w d) "ok"
+
+def optField {α} (parse : String → Option α) (s : String) : Option (Option α) :=
+  if s = "-" then some none else (parse s).map some
+
+def parseMode (s : String) : Option LayerMode :=
+  match s.splitOn "=" with
+  | ["none"] => some .neither
+  | ["color", c] => if c = "" then none else some (.color c)
+  | ["cmap", c] => if c = "" then none else some (.colormap c)
+  | _ => none
+
+def parseYN : String → Option Bool
+  | "y" => some true | "n" => some false | _ => none
+
+def parseSpec (s : String) : Option (String × LayerPortrayal) :=
+  match s.splitOn ":" with
+  | [name, mode, alpha, vmin, vmax, cbar] => do
+    let mode ← parseMode mode
+    let alpha ← optField (·.toNat?) alpha
+    let vmin ← optField (·.toInt?) vmin
+    let vmax ← optField (·.toInt?) vmax
+    let cbar ← optField parseYN cbar
+    if name = "" then none
+    else pure (name, { mode, alpha := alpha.getD 100, vmin, vmax, colorbar := cbar.getD true })
+  | _ => none
+
+/-- the short forms of `drawlayer` -/
+def legacySpec : String → Option (String × LayerPortrayal)
+  | "cmap" => some ("v", { mode := .colormap "viridis", vmin := some 0, vmax := some 9, colorbar := false })
+  | "color" => some ("v", { mode := .color "red", vmin := some 0, vmax := some 9, colorbar := false })
+  | "cmapauto" => some ("v", { mode := .colormap "viridis", colorbar := false })
+  | "colorauto" => some ("v", { mode := .color "red", colorbar := false })
+  | _ => none
+
+def setLayer (st : St) (sp : Space) (name : String) (vs : List String) : St × String :=
+  match vs.mapM (·.toInt?) with
+  | none => (st, "bad-op")
+  | some vals =>
+    let L : Layer := { w := sp.w, h := sp.h, vals }
+    -- only grids can be given a property layer
+    if name = "" || !(sp.fam.isOrthogonal || sp.fam.isHex) || !L.wellFormed then (st, "bad-op")
+    else if (st.layers.lookup name).isSome then
+      ({ st with layers := st.layers.map fun nl => if nl.1 == name then (name, L) else nl }, "ok")
+    else ({ st with layers := st.layers ++ [(name, L)] }, "ok")
 
 def parseKind : String → Option Kind
   | "po" => some .posOnly | "pk" => some .posOrKw | "vp" => some .varPos
@@ -156,6 +253,37 @@ def fmtCheck : Except CheckErr Unit → String
   | .error (.positionalOnly n) => s!"err posonly {n}"
   | .error (.missing n) => s!"err missing {n}"
   | .error (.invalid n) => s!"err invalid {n}"
+
+def parseParamVal (s : String) : Option (String × ParamVal) :=
+  match s.splitOn ":" with
+  | [k, v] =>
+    if k = "" then none else
+    match v.splitOn "/" with
+    | ["slider", f, value, label] =>
+      if value = "" || label = "" then none
+      else if f = "i" then some (k, .slider false label value)
+      else if f = "f" then some (k, .slider true label value) else none
+    | ["spec", type, value, label] =>
+      if type = "" || value = "" || label = "" then none
+      else some (k, .spec type (if value = "-" then none else some value) (if label = "-" then none else some label))
+    | ["fdict"] => some (k, .plainDict)
+    | ["val", value] => if value = "" then none else some (k, .plain value)
+    | _ => none
+  | _ => none
+
+def fmtKind : WidgetKind → String
+  | .sliderInt => "sliderint" | .sliderFloat => "sliderfloat" | .select => "select"
+  | .checkbox => "checkbox" | .inputText => "inputtext"
+
+def fmtNone : Option Val → String
+  | none => "None"
+  | some v => v
+
+def fmtParams (ps : List (String × Option Val)) : String :=
+  orDash (",".intercalate (ps.map fun kv => s!"{kv.1}:{fmtNone kv.2}"))
+
+def fmtWidgets (ws : List Widget) : String :=
+  orDash (",".intercalate (ws.map fun w => s!"{fmtKind w.kind}/{w.name}/{w.label}/{fmtNone w.value}"))
 
 def fmtNames (ps : List (String × PyVal)) : String := orDash (",".intercalate (ps.map (·.1)))
 
@@ -234,6 +362,23 @@ def stepLine (st : St) (ws : List String) : St × String :=
       match drawSpace sp st.heap st.portrayal with
       | .ok gs => (st, fmtDraw gs)
       | .error e => (st, fmtErr e)
+  | "drawk" :: kvs =>
+    withSpace st fun sp =>
+      match kvs.mapM parseKV with
+      | none => (st, "bad-op")
+      | some kw =>
+        if kw.isEmpty || !(kw.map (·.1)).Nodup || !kw.all (fun kv => ["alpha", "edgecolors", "linewidths"].contains kv.1) then (st, "bad-op")
+        else match drawSpaceKw sp st.heap st.portrayal kw with
+          | .ok d => (st, fmtDrawKw d)
+          | .error .attribute => (st, "err Attribute")
+          | .error (.conflict k) => (st, s!"err Value conflict {k}")
+  | ["sdefault"] =>
+    withSpace st fun sp =>
+      if sp.placed.isEmpty then (st, "ok none")
+      else match defaultSize sp with
+        | .exact f => (st, s!"ok {fmtFrac f}")
+        | .layout => (st, "ok layout")
+        | .undefined => (st, "ok undefined")
   | ["draw"] =>
     withSpace st fun sp =>
       match drawSpace sp st.heap st.portrayal with
@@ -241,28 +386,50 @@ def stepLine (st : St) (ws : List String) : St × String :=
       | .error e => (st, fmtErr e)
   | ["altairc"] =>   -- through the solara component SpaceAltair: the same _draw_grid call
     withSpace st fun sp =>
-      match altairRows sp st.heap st.portrayal with
-      | .ok rows => (st, fmtAltair rows)
+      match altairChart sp st.heap st.portrayal with
+      | .ok c => (st, fmtAltair c)
       | .error e => (st, fmtErr e)
   | ["altair"] =>
     withSpace st fun sp =>
-      match altairRows sp st.heap st.portrayal with
-      | .ok rows => (st, fmtAltair rows)
+      match altairChart sp st.heap st.portrayal with
+      | .ok c => (st, fmtAltair c)
+      | .error e => (st, fmtErr e)
+  | ["altairc0"] =>   -- make_altair_space(agent_portrayal=None): every agent is portrayed by its id
+    withSpace st fun sp =>
+      let (heap, p) := defaultAltairPortrayal (spaceAgents sp)
+      match altairChart sp heap p with
+      | .ok c => (st, fmtAltair c)
+      | .error e => (st, fmtErr e)
+  | ["drawc0"] =>   -- make_mpl_space_component(agent_portrayal=None): every agent is portrayed by `{}`
+    withSpace st fun sp =>
+      match drawSpace sp [] (fun _ => none) with
+      | .ok gs => (st, fmtDraw gs)
       | .error e => (st, fmtErr e)
   | ["heap"] => withSpace st fun _ => (st, fmtHeap st.heap)
-  | "layer" :: vs =>
-    withSpace st fun sp =>
-      match vs.mapM (·.toInt?) with
-      | none => (st, "bad-op")
-      | some vals =>
-        let L : Layer := { w := sp.w, h := sp.h, vals }
-        if L.wellFormed then ({ st with layer := some L }, "ok") else (st, "bad-op")
+  | "layer" :: vs => withSpace st fun sp => setLayer st sp "v" vs
+  | "layern" :: name :: vs => withSpace st fun sp => setLayer st sp name vs
   | ["drawlayer", mode] =>
-    -- the mode (colormap / single colour, explicit / automatic range) only changes colours, not orientation
     withSpace st fun sp =>
-      match st.layer with
+      match legacySpec mode with
       | none => (st, "bad-op")
-      | some L => if ["cmap", "color", "cmapauto", "colorauto"].contains mode then (st, fmtLayer sp.fam L) else (st, "bad-op")
+      | some spec => (st, fmtLayers sp.w (drawLayers sp.fam st.layers [spec]))
+  | "drawsp" :: specs =>
+    withSpace st fun sp =>
+      match specs.mapM parseSpec with
+      | none => (st, "bad-op")
+      | some ps =>
+        if !(ps.map (·.1)).Nodup then (st, "bad-op") else
+        match drawSpaceFull sp st.heap st.portrayal st.layers ps with
+        | .error (.agents e) => (st, fmtErr e)
+        | .error (.layers e) => (st, fmtLayers sp.w (.error e))
+        | .ok (gs, ds) => (st, fmtDraw gs ++ " ## " ++ fmtLayers sp.w (.ok ds))
+  | "drawlayers" :: specs =>
+    withSpace st fun sp =>
+      match specs.mapM parseSpec with
+      | none => (st, "bad-op")
+      | some ps =>
+        -- the request is a dict: one entry per name
+        if (ps.map (·.1)).Nodup then (st, fmtLayers sp.w (drawLayers sp.fam st.layers ps)) else (st, "bad-op")
   | "sig" :: ps =>
     if !st.params then (st, "bad-op") else
     match ps.mapM parseParam with
@@ -281,6 +448,24 @@ def stepLine (st : St) (ws : List String) : St × String :=
     match st.params, st.sig, ps.mapM parsePyVal with
     | true, some sig, some ps => (st, fmtCheck (creatorCheck sig ps))
     | _, _, _ => (st, "bad-op")
+  | "inputs" :: ps =>
+    match st.params, st.sig, ps.mapM parseParamVal with
+    | true, some sig, some ps =>
+      -- the parameters are a dict: one entry per name
+      if !(ps.map (·.1)).Nodup then (st, "bad-op") else
+      match modelCreator sig ps with
+      | .error (.unsupported t) => ({ st with mparams := none, widgets := [] }, s!"err unsupported {t}")
+      | .error (.check e) => ({ st with mparams := none, widgets := [] }, fmtCheck (.error e))
+      | .ok (mp, ws) => ({ st with mparams := some mp, widgets := ws }, s!"ok params={fmtParams mp} widgets={fmtWidgets ws}")
+    | _, _, _ => (st, "bad-op")
+  | ["change", name, value] =>
+    match st.mparams with
+    | some mp =>
+      if st.widgets.any (·.name == name) then
+        let mp' := onChange mp name value
+        ({ st with mparams := some mp' }, s!"ok params={fmtParams mp'}")
+      else (st, "err noinput")
+    | none => (st, "err noinput")     -- the last `inputs` was refused (or there was none): no input to change
   | _ => (st, "bad-op")
 
 partial def loop (h : IO.FS.Stream) (out : IO.FS.Stream) (st : St) : IO Unit := do
